@@ -29,6 +29,47 @@ type Case struct {
 	OnlyDestRegs         bool
 	Retires              int
 	Strict               bool // replay files of recorded findings: judge the excluded classes too
+	// ClosedLoop: the inputs are driven by a handshaking producer instead of being held valid: input j
+	// offers column j of In value by value, lowers valid when it sees received, waits for received to fall
+	// and Gap[j] more steps before the next offer. Only for programs that read inputs with i2rw alone
+	// (an i2r would sample a line whose content depends on timing).
+	ClosedLoop bool  `json:",omitempty"`
+	Gap        []int `json:",omitempty"`
+}
+
+// loopEnv is the closed-loop producer of one world.
+type loopEnv struct {
+	idx, wait []int
+	offering  []bool
+}
+
+func newLoopEnv(n int) *loopEnv {
+	return &loopEnv{idx: make([]int, n), wait: make([]int, n), offering: make([]bool, n)}
+}
+
+// step decides, for input j, what the producer drives before the next step of the processor, given the
+// received line it sees now: (value, valid).
+func (e *loopEnv) step(c Case, j int, received bool) (uint64, bool) {
+	switch {
+	case e.offering[j] && received:
+		e.offering[j] = false
+		e.idx[j]++
+		e.wait[j] = 0
+		if j < len(c.Gap) {
+			e.wait[j] = c.Gap[j]
+		}
+	case !e.offering[j] && !received:
+		if e.wait[j] > 0 {
+			e.wait[j]--
+		} else if e.idx[j] < len(c.In) {
+			e.offering[j] = true
+		}
+	}
+	v := uint64(0)
+	if e.idx[j] < len(c.In) {
+		v = c.In[e.idx[j]][j]
+	}
+	return v, e.offering[j]
 }
 
 func regName(t *rapid.T, nreg int, l string) string {
@@ -122,10 +163,14 @@ func genCase(t *rapid.T) Case {
 			sources = append(sources, o)
 		}
 	}
+	prevLine := ""
 	for i := 0; i < n; i++ {
 		op := rapid.SampledFrom(ops).Draw(t, "instr")
 		if i < 3 && len(sources) > 0 && rapid.Bool().Draw(t, "prologue") {
 			op = rapid.SampledFrom(sources).Draw(t, "srcinstr")
+		}
+		if strings.HasPrefix(prevLine, "i2rw ") && rapid.IntRange(0, 2).Draw(t, "readagain") == 0 {
+			op = "i2rw"
 		}
 		line := op
 		switch Table[op].Kind {
@@ -157,7 +202,16 @@ func genCase(t *rapid.T) Case {
 			}
 			line += " " + regName(t, nreg, "ra") + " " + strconv.FormatUint(imm, 10)
 		case "rin":
-			line += " " + regName(t, nreg, "ra") + " i" + strconv.Itoa(rapid.IntRange(0, c.N-1).Draw(t, "in"))
+			reg, in := regName(t, nreg, "ra"), rapid.IntRange(0, c.N-1).Draw(t, "in")
+			if pf := strings.Fields(prevLine); op == "i2rw" && len(pf) == 3 && pf[0] == "i2rw" && rapid.Bool().Draw(t, "readpair") {
+				// two reads in a row into the same register (from another input when there is one)
+				reg = pf[1]
+				if c.N >= 2 {
+					pin, _ := strconv.Atoi(pf[2][1:])
+					in = (pin + 1 + rapid.IntRange(0, c.N-2).Draw(t, "otherin")) % c.N
+				}
+			}
+			line += " " + reg + " i" + strconv.Itoa(in)
 		case "rout":
 			line += " " + regName(t, nreg, "ra") + " o" + strconv.Itoa(rapid.IntRange(0, c.M-1).Draw(t, "out"))
 		case "loc":
@@ -166,6 +220,7 @@ func genCase(t *rapid.T) Case {
 			line += " " + regName(t, nreg, "ra") + " " + strconv.Itoa(rapid.IntRange(0, n-1).Draw(t, "target"))
 		}
 		c.Prog = append(c.Prog, line)
+		prevLine = line
 	}
 	c.Ops = ops
 	c.O = gen.NeededBits(n) + rapid.IntRange(0, 2).Draw(t, "oslack")
@@ -177,6 +232,18 @@ func genCase(t *rapid.T) Case {
 			v[j] = rapid.Uint64().Draw(t, "inval") >> uint(64-c.Rsize)
 		}
 		c.In = append(c.In, v)
+	}
+	onlyWaitingReads := c.N > 0
+	for _, l := range c.Prog {
+		if strings.HasPrefix(l, "i2r ") || strings.HasPrefix(l, "addi ") { // sample the input lines without a handshake
+			onlyWaitingReads = false
+		}
+	}
+	if onlyWaitingReads && rapid.IntRange(0, 2).Draw(t, "closedloop") != 0 {
+		c.ClosedLoop = true
+		for j := 0; j < c.N; j++ {
+			c.Gap = append(c.Gap, rapid.IntRange(0, 3).Draw(t, "gap"))
+		}
 	}
 	return c
 }
@@ -299,12 +366,22 @@ func simTrace(c Case, m *procbuilder.Machine, maxRet int) ([]snap, []int, string
 			vm.InputsValid[j] = true
 		}
 	}
-	setIn(0)
+	env := newLoopEnv(c.N)
+	if !c.ClosedLoop {
+		setIn(0)
+	}
 	steps := 0
 	for len(tr) < maxRet {
 		if int(vm.Pc) >= len(c.Prog) {
 			stop = "end-of-program"
 			break
+		}
+		if c.ClosedLoop {
+			for j := 0; j < c.N; j++ {
+				v, valid := env.step(c, j, vm.InputsRecv[j])
+				vm.Inputs[j] = gen.Val(c.Rsize, v)
+				vm.InputsValid[j] = valid
+			}
 		}
 		pc := int(vm.Pc)
 		f := strings.Fields(c.Prog[pc])
@@ -361,7 +438,9 @@ func simTrace(c Case, m *procbuilder.Machine, maxRet int) ([]snap, []int, string
 			}
 			tr = append(tr, s)
 			retiredPc = append(retiredPc, pc)
-			setIn(len(tr))
+			if !c.ClosedLoop {
+				setIn(len(tr))
+			}
 		}
 		if steps > 300*maxRet+1000 { // addf simulates a 120-step "zero anomaly" latency
 			stop = "simulator-stalled"
@@ -397,7 +476,15 @@ func hdlTrace(c Case, b *built, maxRet int) ([]snap, []int, string, *pbt.Failure
 	for o := 0; o < c.M; o++ {
 		sim.Set(fmt.Sprintf("o%d_received", o), 0)
 	}
-	setIn(0)
+	env := newLoopEnv(c.N)
+	if c.ClosedLoop {
+		for j := 0; j < c.N; j++ {
+			sim.Set(fmt.Sprintf("i%d", j), 0)
+			sim.Set(fmt.Sprintf("i%d_valid", j), 0)
+		}
+	} else {
+		setIn(0)
+	}
 	if err := sim.Tick("clock_signal"); err != nil {
 		return nil, nil, "", pbt.Failf("interp", "%v", err)
 	}
@@ -410,6 +497,16 @@ func hdlTrace(c Case, b *built, maxRet int) ([]snap, []int, string, *pbt.Failure
 	cycles := 0
 	for len(tr) < maxRet {
 		pc := int(sim.Get("p0_instance._pc"))
+		if c.ClosedLoop {
+			for j := 0; j < c.N; j++ {
+				v, valid := env.step(c, j, sim.Get(fmt.Sprintf("i%d_received", j)) == 1)
+				sim.Set(fmt.Sprintf("i%d", j), v)
+				sim.Set(fmt.Sprintf("i%d_valid", j), b2u(valid))
+			}
+			if err := sim.Settle(); err != nil {
+				return nil, nil, "", pbt.Failf("interp", "%v", err)
+			}
+		}
 		if err := sim.Tick("clock_signal"); err != nil {
 			return nil, nil, "", pbt.Failf("interp", "cycle %d: %v", cycles, err)
 		}
@@ -428,7 +525,9 @@ func hdlTrace(c Case, b *built, maxRet int) ([]snap, []int, string, *pbt.Failure
 			}
 			tr = append(tr, s)
 			retiredPc = append(retiredPc, pc)
-			setIn(len(tr))
+			if !c.ClosedLoop {
+				setIn(len(tr))
+			}
 		}
 		if err := sim.Settle(); err != nil {
 			return nil, nil, "", pbt.Failf("interp", "%v", err)
@@ -553,7 +652,18 @@ func prop(c Case) pbt.Outcome {
 			labels["branch-taken"] = true
 		}
 	}
+	if stop == "simulator-stalled" && n == len(str) {
+		// the simulator stopped retiring (its step budget is hundreds of steps per instruction): the hardware
+		// must be stuck on the same instruction, not past it
+		if htr, hpc, _, f := hdlTrace(c, b, n+1); f == nil && len(htr) > n {
+			return pbt.Outcome{Fail: pbt.Failf("sim-stalled", "the simulator retires %d instructions and then never completes the next one; the hardware retires it (pc %d: %s) and goes on\nprogram:\n%s",
+				n, hpc[n], c.Prog[hpc[n]], numbered(c.Prog))}
+		}
+	}
 	nt = n >= 3 && changed
+	if c.ClosedLoop {
+		labels["closed-loop-inputs"] = true
+	}
 	var ls []string
 	for l := range labels {
 		ls = append(ls, l)
@@ -595,3 +705,10 @@ var Props = []*pbt.Entry{
 
 func TestProps(t *testing.T)  { pbt.RunAll(t, "C01", Props) }
 func TestReplay(t *testing.T) { pbt.ReplayAll(t, "C01", Props) }
+
+func b2u(b bool) uint64 {
+	if b {
+		return 1
+	}
+	return 0
+}
